@@ -61,7 +61,7 @@ def compile_crate(repo, build, name, src):
     lock = os.path.join(repo, "Cargo.lock")
     if os.path.exists(lock):
         shutil.copy(lock, os.path.join(d, "Cargo.lock"))
-    env = dict(os.environ, CARGO_NET_OFFLINE="true", CARGO_TARGET_DIR=os.path.join(build, "rcheck-target-" + tag), RUSTFLAGS="-Awarnings")
+    env = dict(os.environ, CARGO_NET_OFFLINE="true", CARGO_TARGET_DIR=os.path.join(build, "rcheck-target"), RUSTFLAGS="-Awarnings")
     p = subprocess.run(["cargo", "check", "--offline"], cwd=d, env=env, capture_output=True, text=True)
     return p.returncode, p.stderr
 
